@@ -181,6 +181,16 @@ func (ep *errProv) walk(v ssa.Value, seen map[ssa.Value]bool, out *[]errOrigin) 
 			ep.walk(e, seen, out)
 		}
 	case *ssa.MakeInterface:
+		// the result of a call whose static type is a concrete error type other than the structured one (a legacy
+		// constructor such as tokenizer.ErrorInvalidNumber): whatever the callee does, the value has no code
+		if _, isCall := x.X.(*ssa.Call); isCall && !isErrorType(x.X.Type()) && !ep.isStructured(core.Deref(x.X.Type())) && !ep.isStructured(x.X.Type()) {
+			if n := core.NamedOf(core.Deref(x.X.Type())); n != nil {
+				if _, isStruct := n.Underlying().(*types.Struct); isStruct {
+					add("concrete", n.Obj().Name()+" returned by "+calleeName(x.X.(*ssa.Call)), x.X, nil)
+					return
+				}
+			}
+		}
 		ep.walk(x.X, seen, out)
 	case *ssa.ChangeInterface:
 		ep.walk(x.X, seen, out)
